@@ -251,7 +251,10 @@ pub(crate) fn with_document_scope<R>(f: impl FnOnce() -> R) -> R {
     }
     let previous = STATE.with(|state| std::mem::take(&mut *state.borrow_mut()));
     let guard = RestoreGuard(Some(previous));
+    // The same goes for the error-location fallback of the outer document.
+    let fallback = crate::de_error::MissingFieldFallbackScope::enter();
     let result = f();
+    drop(fallback);
     drop(guard);
     result
 }
